@@ -434,6 +434,8 @@ impl UnixListener {
     pub fn accept(&self) -> io::Result<(UnixStream, SocketAddr)> {
         self.0.io_reset();
         match self.0.inner().accept() {
+            #[cfg(may_verif)]
+            ref r if crate::verif::sys(&io_impl::AsIoData::as_io_data(&self.0).io_flag, "sys.accept", r) => unreachable!(),
             Ok((s, a)) => return Ok((UnixStream(CoIo::new(s)?), a)),
             Err(e) => {
                 // raw_os_error is faster than kind
@@ -807,6 +809,8 @@ impl UnixDatagram {
         self.0.io_reset();
         // this is an earlier return try for nonblocking read
         match self.0.inner().recv_from(buf) {
+            #[cfg(may_verif)]
+            ref r if crate::verif::sys(&io_impl::AsIoData::as_io_data(&self.0).io_flag, "sys.recv_from", r) => unreachable!(),
             Ok(n) => return Ok(n),
             Err(e) => {
                 // raw_os_error is faster than kind
@@ -841,6 +845,8 @@ impl UnixDatagram {
         self.0.io_reset();
         // this is an earlier return try for nonblocking read
         match self.0.inner().recv(buf) {
+            #[cfg(may_verif)]
+            ref r if crate::verif::sys(&io_impl::AsIoData::as_io_data(&self.0).io_flag, "sys.recv", r) => unreachable!(),
             Ok(n) => return Ok(n),
             Err(e) => {
                 // raw_os_error is faster than kind
@@ -886,6 +892,8 @@ impl UnixDatagram {
         self.0.io_reset();
         // this is an earlier return try for nonblocking read
         match self.0.inner().send_to(buf, path.as_ref()) {
+            #[cfg(may_verif)]
+            ref r if crate::verif::sys(&io_impl::AsIoData::as_io_data(&self.0).io_flag, "sys.send_to", r) => unreachable!(),
             Ok(n) => return Ok(n),
             Err(e) => {
                 // raw_os_error is faster than kind
@@ -923,6 +931,8 @@ impl UnixDatagram {
         self.0.io_reset();
         // this is an earlier return try for nonblocking write
         match self.0.inner().send(buf) {
+            #[cfg(may_verif)]
+            ref r if crate::verif::sys(&io_impl::AsIoData::as_io_data(&self.0).io_flag, "sys.send", r) => unreachable!(),
             Ok(n) => return Ok(n),
             Err(e) => {
                 // raw_os_error is faster than kind
